@@ -18,7 +18,7 @@ for f in sorted(glob.glob(os.path.join(ROOT, "seeded", "*", "meta.json"))):
     if name.startswith("harmless"): continue
     note = d.get("note")
     import re
-    if note and (note.startswith("first run:") or re.search(r"[Ff]irst run: (ESCAPED|only|one model|reported only|NOT CAUGHT|mismatches only)", note)):
+    if note and (note.startswith("first run:") or re.search(r"[Ff]irst run: (ESCAPED|only|one model|[0-9]+ model|reported only|NOT CAUGHT|mismatches only)", note)):
         later += 1; outcome = "caught: " + note
     else: first += 1; outcome = "caught: caught at first run" + ("; " + note if note else "")
     if not d.get("caught"): outcome = "NOT CAUGHT " + (note or "")
